@@ -36,12 +36,17 @@ Conn                                one RequestHandler attached to a SrvTranspor
     .feed(data) / .eof() / .drop(exc)      immediate transport-level calls (use IterLoop.io to
                                            make them I/O handles)
     .delivered    bytes handed to data_received so far (not those held back while paused)
+    .popped       request objects built by start() (Server.request_factory is wrapped): the number
+                  of queue entries whose handling has begun
     .written      bytes written by the server so far
     .counters()   dict of observable counters (see below)
     .priv()       dict of private attributes (refinement only; {} if they are gone)
     .sub          list of sub-events since the last take_sub(): "dr:<n>", "w:<n>", "pause",
-                  "resume", "close", "lost", "drexc:<Type>"
-    .write_marks  [(offset, tag)] - tag current when the byte at `offset` was written
+                  "resume", "close", "lost", "drexc:<Type>", "budget:<what>"
+    .runaway      "" or the budget that was exceeded: tr.write_budget (bytes written) and
+                  Script.entry_budget (handler entries) force the transport closed so that a
+                  server that loops inside one loop step ends as a recorded outcome
+    .write_marks  [(offset, tag, delivered)] - tag / bytes delivered when the byte at `offset` was written
                   (set `conn.tag = ...`; Script sets it to the running handler's id)
 
 SrvTransport(MemTransport)
@@ -183,6 +188,7 @@ class SrvTransport(MemTransport):
         super().__init__(loop, protocol, **kw)
         self.conn: Optional["Conn"] = None
         self.delivered = 0
+        self.write_budget = 1 << 20        # bytes; exceeding it ends the execution (runaway server)
 
     def _note(self, s: str) -> None:
         if self.conn is not None:
@@ -250,8 +256,16 @@ class SrvTransport(MemTransport):
         if self.closing:
             self._note(f"w-closed:{len(b)}")
         elif b:
+            if len(self.written) + len(b) > self.write_budget:
+                # a server that never stops writing (e.g. answers the same request again and again
+                # inside one loop step) must end as a recorded outcome, not as an out-of-memory kill
+                if self.conn is not None:
+                    self.conn.runaway = self.conn.runaway or "write-budget"
+                self._note("budget:write")
+                self.drop(None)
+                return
             if self.conn is not None:
-                self.conn.write_marks.append((len(self.written), self.conn.tag))
+                self.conn.write_marks.append((len(self.written), self.conn.tag, self.delivered))
             self._note(f"w:{len(b)}")
         super().write(b)
 
@@ -265,6 +279,10 @@ class Conn:
         self.dr_excs: List[BaseException] = []
         self.write_marks: List[Tuple[int, Any]] = []
         self.tag: Any = 0
+        self.popped = 0              # request objects built for this connection (messages taken off the queue)
+        self.runaway = ""            # set when a budget (bytes written, handler entries, steps) is exceeded
+        self.proto: Any = None
+        kit.conns.append(self)
         self.proto = kit.server()
         self.tr = SrvTransport(self.loop, self.proto, name=name,
                                extra={"peername": ("127.0.0.1", 40000), "sockname": ("127.0.0.1", 80)})
@@ -354,11 +372,20 @@ class ServerKit:
             loop.run_coro(self.runner.setup())
             self.server = self.runner.server
         self.conns: List[Conn] = []
+        # the instant a message leaves the connection's queue: start() builds the request object
+        orig = self.server.request_factory
+
+        def counting_factory(message: Any, payload: Any, protocol: Any, *a: Any, **k: Any) -> Any:
+            for c in self.conns:
+                if c.proto is protocol:
+                    c.popped += 1
+                    break
+            return orig(message, payload, protocol, *a, **k)
+
+        self.server.request_factory = counting_factory
 
     def connect(self, name: str = "c") -> Conn:
-        c = Conn(self, name)
-        self.conns.append(c)
-        return c
+        return Conn(self, name)
 
     def close(self, timeout: float = 1.0) -> None:
         try:
@@ -385,6 +412,7 @@ class Script:
         self.record = record
         self.conn: Optional[Conn] = None
         self.unknown = 0
+        self.entry_budget = 1000         # handler entries per execution (runaway guard)
 
     def _rec(self, s: str) -> None:
         if self.record is not None:
@@ -416,6 +444,10 @@ class Script:
     async def handler(self, request: Any) -> Any:
         from aiohttp import web
 
+        if len(self.entered) + self.unknown >= self.entry_budget and self.conn is not None:
+            self.conn.runaway = self.conn.runaway or "entry-budget"
+            self._rec("budget:entries")
+            self.conn.tr.drop(None)
         err = getattr(request, "pre_handler_error", None)
         if err is not None:          # low-level web.Server: the handler is called for parse errors
             self._rec("henter:0")
@@ -511,6 +543,7 @@ class Script:
 # ---------------------------------------------------------------- request rendering
 UNIT = b"\x01\r\n\r\n"          # one body unit; in request-line position it is an unparsable head
 JUNK = b"\x02\x03\x04\x05\x06"  # no line end: stays in the parser's line buffer, poisons the next head
+JUNK_LF = b"GET /bad HTTP/1.1\nHost: t\n\n"   # bare-LF "head": never complete for a CRLF parser; poisons what follows
 POISON_PARSE = "http://[::1"     # yarl raises ValueError inside HttpRequestParser.parse_message
 POISON_FACTORY = "http://a:b/"   # accepted by the parser; BaseRequest.__init__ (url.host/port) raises
 BAD_HEADS: List[bytes] = [
@@ -522,7 +555,6 @@ BAD_HEADS: List[bytes] = [
     b"GET /bad HTTP/1.1\r\nHost: t\r\nBad Name: v\r\n\r\n",         # space in field name
     b"GET /bad HTTP/1.1\r\nHost: t\r\nNoColonHere\r\n\r\n",
     b"GET /bad HTTP/1.1\r\n\r\n",                                  # HTTP/1.1 without Host
-    b"GET /bad HTTP/1.1\nHost: t\n\n",                             # bare LF line ends
     b"GET /bad HTTP/1.1\r\nHost: t\r\nX: a\x00b\r\n\r\n",           # NUL in field value
 ]
 
@@ -673,20 +705,28 @@ def teardown(conn: Conn, script: Optional[Script], it: IterLoop) -> List[dict]:
     (start()/handler tasks that died with an exception show up here at the latest)."""
     loop = conn.loop
     before = len(loop.exc_contexts)
+    def settle() -> None:
+        try:
+            it.settle(20000)
+        except RuntimeError:
+            conn.runaway = conn.runaway or "teardown-steps"
+            loop._ready.clear()
+            it.remaining = 0
+
     if not conn.tr.closed:
         conn.tr.drop(None)
-    it.settle()
+    settle()
     if script is not None:
         script.cancel_all()
-    it.settle()
+    settle()
     for _ in range(64):          # let pending timers (lingering read, keep-alive) run out, as time would
         if not it.tick():
             break
-        it.settle()
+        settle()
     th = conn.start_task
     if th is not None and not th.done():
         th.cancel()
-        it.settle()
+        settle()
     conn.start_task = None
     conn.proto = None  # type: ignore[assignment]
     conn.tr.protocol = None
